@@ -17,6 +17,7 @@ import (
 	"encoding/json"
 	"flag"
 	"fmt"
+	"math/big"
 	"strings"
 
 	"github.com/pokt-network/pocket-core/crypto"
@@ -112,6 +113,78 @@ func try(f func() string) (s string) {
 
 func sha(b []byte) []byte { h := sha256.Sum256(b); return h[:] }
 func rip(b []byte) []byte { h := ripemd160.New(); h.Write(b); return h.Sum(nil) }
+
+var (
+	secpN, _ = new(big.Int).SetString("FFFFFFFFFFFFFFFFFFFFFFFFFFFFFFFEBAAEDCE6AF48A03BBFD25E8CD0364141", 16)
+	edL, _   = new(big.Int).SetString("1000000000000000000000000000000014DEF9DEA2F79CD65812631A5CF5D3ED", 16)
+)
+
+func be32(x *big.Int) []byte {
+	b := x.Bytes()
+	if len(b) > 32 {
+		return nil
+	}
+	return append(make([]byte, 32-len(b)), b...)
+}
+
+func le32(x *big.Int) []byte {
+	b := be32(x)
+	if b == nil {
+		return nil
+	}
+	for i, j := 0, 31; i < j; i, j = i+1, j-1 {
+		b[i], b[j] = b[j], b[i]
+	}
+	return b
+}
+
+type twin struct {
+	label string
+	sig   []byte
+}
+
+// malleations: structured variants of a genuine signature that a sloppy verifier accepts.
+// secp256k1 (R||S big endian): the high-S twin (R, N-S), S+N and R+N where they fit into 32
+// bytes, R = 0, S = 0, S = N.  ed25519 (R||S, S little endian): the non-canonical S + L, S + 2L.
+func malleations(secp bool, sig []byte) []twin {
+	var out []twin
+	if len(sig) != 64 {
+		return nil
+	}
+	add := func(label string, a, b []byte) {
+		if a == nil || b == nil {
+			return
+		}
+		c := append(append([]byte{}, a...), b...)
+		if string(c) != string(sig) {
+			out = append(out, twin{label, c})
+		}
+	}
+	if secp {
+		R, S := new(big.Int).SetBytes(sig[:32]), new(big.Int).SetBytes(sig[32:])
+		add("highS", sig[:32], be32(new(big.Int).Sub(secpN, S)))
+		add("SplusN", sig[:32], be32(new(big.Int).Add(S, secpN)))
+		add("RplusN", be32(new(big.Int).Add(R, secpN)), sig[32:])
+		add("zeroR", make([]byte, 32), sig[32:])
+		add("zeroS", sig[:32], make([]byte, 32))
+		add("SisN", sig[:32], be32(secpN))
+		add("negBoth", be32(new(big.Int).Sub(secpN, R)), be32(new(big.Int).Sub(secpN, S)))
+	} else {
+		S := new(big.Int).SetBytes(func() []byte {
+			b := append([]byte{}, sig[32:]...)
+			for i, j := 0, 31; i < j; i, j = i+1, j-1 {
+				b[i], b[j] = b[j], b[i]
+			}
+			return b
+		}())
+		add("SplusL", sig[:32], le32(new(big.Int).Add(S, edL)))
+		add("Splus2L", sig[:32], le32(new(big.Int).Add(S, new(big.Int).Lsh(edL, 1))))
+		add("Splus8L", sig[:32], le32(new(big.Int).Add(S, new(big.Int).Lsh(edL, 3))))
+		add("zeroS", sig[:32], make([]byte, 32))
+		add("zeroR", make([]byte, 32), sig[32:])
+	}
+	return out
+}
 
 func mutate(r *gen.R, b []byte) []byte {
 	c := append([]byte(nil), b...)
@@ -269,6 +342,9 @@ func verCase(r *gen.R, s *signer) {
 			line("key", pk2, msg, sig)
 		}
 	}
+	for _, tw := range malleations(kind == "s", sig) {
+		line("sig-"+tw.label, s.pub, msg, tw.sig)
+	}
 	line("msg", s.pub, append(append([]byte{}, msg...), 0), sig)
 	line("sig", s.pub, msg, sig[:len(sig)-1])
 	line("sig", s.pub, msg, append(append([]byte{}, sig...), 0))
@@ -402,6 +478,26 @@ func msvCase(r *gen.R, n int) {
 		tr := allTrue(n)
 		tr[i] = false
 		msvLine("sigmut", s, msg, marshalSigs(c), tr)
+	}
+	// a structurally malleated twin of a member's own signature at its position
+	for i, m := range s.members {
+		if m.priv == nil {
+			continue
+		}
+		_, secp := m.pub.(crypto.Secp256k1PublicKey)
+		tws := malleations(secp, sigs[i])
+		if len(tws) == 0 {
+			continue
+		}
+		tw := tws[r.Intn(len(tws))]
+		c := cp()
+		c[i] = tw.sig
+		tr := allTrue(n)
+		tr[i] = false
+		msvLine("malleated-"+tw.label, s, msg, marshalSigs(c), tr)
+		if r.Chance(1, 2) {
+			break
+		}
 	}
 	// a signature by a stranger at one position
 	{
